@@ -10,4 +10,5 @@ let () =
     Printf.printf "layout@%s\t%s\t%s\t%s\t%d\t%d\n" (str path) (str k) (str s) (str n) (int_of_nat a) (int_of_nat b)) c02_layout_mismatches;
   List.iter (fun s -> Printf.printf "readme\tnot-packed-or-not-aligned4\t%s\t\t0\t0\n" (str s)) c02_readme_violations;
   List.iter (fun s -> Printf.printf "readme\tfloat-member-not-aligned4\t%s\t\t0\t0\n" (str s)) c02_float_violations;
+  List.iter (fun r -> Printf.printf "value\t%s\t%s\t%s\t0\t0\n" (str r.v_how) (str r.v_struct) (str r.v_leaf)) c02_value_mismatches;
   print_endline "END"
